@@ -10,3 +10,9 @@ package mathx
 //@   requires u.r != nil && u.lock != nil && 0.0 <= u.deviation && u.deviation <= 1.0 && base >= 0 && base < 4000000000000000000
 //@   ensures [within-deviation] real(result) <= (1.0 + u.deviation) * real(base) && real(result) > (1.0 - u.deviation) * real(base) - 1.0
 //@   ensures [unlocks] calls("lock") == 1 && calls("unlock") == 1
+
+// NewUnstable: the deviation is clamped into [0, 1]; every instance has its own generator and lock.
+//@ func NewUnstable
+//@   prop C06, C17
+//@   opaque New, NewSource
+//@   ensures [deviation-clamped] result.deviation == min(max(deviation, 0.0), 1.0) && result.r == ret(rand.New) && result.lock != nil && fresh(result.lock)
